@@ -50,9 +50,36 @@ def walkChildren (op : Sym) (idx : Nat) : Nat → List Sym → Nat → Option (L
         some (evs ++ (if idx + 1 < op.arity then [Event.between op idx] else []) ++ evs', ops'')
 end
 
+mutual
+theorem innerWalk_flatten_aux : (t : Tree) → t.wf = true → ∀ (rest : List Sym) (fuel : Nat),
+    t.size + 1 ≤ fuel → innerWalk (t.flatten ++ rest) fuel = some (events t, rest)
+  | .node s tag args, h, rest, fuel, hf => by
+    cases fuel with
+    | zero => omega
+    | succ fuel =>
+      simp only [Tree.wf, Bool.and_eq_true, beq_iff_eq] at h
+      obtain ⟨hlen, hwf⟩ := h
+      have hc := walkChildren_flattenAll_aux s args hwf 0 rest fuel
+        (by simp only [Tree.size] at hf; omega)
+      simp only [Tree.flatten, List.cons_append, innerWalk, ← hlen, hc, events]
+theorem walkChildren_flattenAll_aux (op : Sym) : (ts : Trees) → Tree.wfAll ts = true →
+    ∀ (idx : Nat) (rest : List Sym) (fuel : Nat), Tree.sizeAll ts + 1 ≤ fuel →
+    walkChildren op idx ts.length (Tree.flattenAll ts ++ rest) fuel
+      = some (eventsArgs op idx ts, rest)
+  | .nil, _, idx, rest, fuel, _ => by
+    simp only [Trees.length, Tree.flattenAll, List.nil_append, walkChildren, eventsArgs]
+  | .cons a ts, h, idx, rest, fuel, hf => by
+    simp only [Tree.wfAll, Bool.and_eq_true] at h
+    obtain ⟨ha, hts⟩ := h
+    simp only [Tree.sizeAll] at hf
+    have h1 := innerWalk_flatten_aux a ha (Tree.flattenAll ts ++ rest) fuel (by omega)
+    have h2 := walkChildren_flattenAll_aux op ts hts (idx + 1) rest fuel (by omega)
+    simp only [Trees.length, Tree.flattenAll, List.append_assoc, walkChildren, h1, h2, eventsArgs]
+end
+
 theorem innerWalk_flatten (t : Tree) (h : t.wf = true) (rest : List Sym) :
-    innerWalk (t.flatten ++ rest) (t.size + 1) = some (events t, rest) := by
-  sorry
+    innerWalk (t.flatten ++ rest) (t.size + 1) = some (events t, rest) :=
+  innerWalk_flatten_aux t h rest (t.size + 1) (Nat.le_refl _)
 
 end Flat
 end EtkVerif
